@@ -18,7 +18,6 @@ use winter_air::{
     AirContext, Assertion, BoundaryConstraints, ConstraintDivisor, FieldExtension, ProofOptions, TraceInfo,
     TransitionConstraintDegree, TransitionConstraints,
 };
-use winter_math::StarkField;
 
 pub const LENGTHS: [usize; 6] = [8, 16, 32, 64, 128, 256];
 const WIDTH: usize = 2;
@@ -537,15 +536,11 @@ fn check_pair<B: FA>(n: usize, da: &ADesc, a: &Assertion<B>, db: &ADesc, b: &Ass
                 if used[i] || d.col != con.column() {
                     continue;
                 }
+                // (two accepted assertions on one column never share a divisor: equal zero sets overlap)
                 if let Ok(div) = div {
                     if div == g.divisor() {
-                        // same column and same divisor: disambiguate by the first asserted value
-                        let s0 = d.steps(n)[0];
-                        let v0 = value(fp, d, 0);
-                        if con.evaluate_at(B::from_u128(dom[s0]), B::from_u128(v0)).to_u128() == 0 {
-                            hit = Some(i);
-                            break;
-                        }
+                        hit = Some(i);
+                        break;
                     }
                 }
             }
@@ -729,6 +724,9 @@ fn ill_formed_cases() -> Vec<(usize, ADesc, &'static str)> {
             v.push((n, ADesc { kind: Kind::Sequence, col, first: 1, stride: 2, nvals: n / 2 }, "column-out-of-range"));
         }
     }
+    // the loops above meet some inputs more than once
+    let mut seen = std::collections::BTreeSet::new();
+    v.retain(|(n, d, _)| seen.insert((*n, *d)));
     v
 }
 
@@ -788,7 +786,7 @@ fn run_pairs<B: FA>(run: &mut Run) {
         cases(&lens).into_iter(),
         |c: &PCase, obs: &mut Obs| check_overlaps::<B>(c, &tables[&c.n], obs),
     );
-    let pair_lens: Vec<usize> = tier.pick(vec![8, 16, 32], lens.clone());
+    let pair_lens: Vec<usize> = tier.pick(vec![8, 16, 32, 64, 128], lens.clone());
     run.enumerate(
         &format!("pairs/constraints/{}", B::NAME),
         &format!(
